@@ -1,7 +1,267 @@
-"""C02 — not implemented yet (fail closed)."""
-from ..model import AnalysisError
+"""C02 IOS <-> NX-OS conversion changes spelling only — propagation, split-before-convert, total renderers, identity."""
+
+from __future__ import annotations
+
+import ast
+from typing import Dict, List, Optional, Set, Tuple
+
+from ..cfg import Node
+from ..core import Ctx, Report, snippet, where
+from ..fold import known
+from ..model import Class, Func, own_nodes, src
+from ..pathsem import function_paths, resolve_local
+from ..typeinf import classes_of, elem, members
+from .common import chain, loop_body_paths, mentions
+from .keys import DATA_CLASSES, reinit_sites
+
 PROPERTY = "C02"
 LEVEL = "other"
-EXPLANATION = "not implemented"
-def run(ctx, rep, tier):
-    raise AnalysisError("rules for C02 are not implemented yet")
+EXPLANATION = (
+    "Decides that a platform change reaches every object of the tree (each child object or list element is converted "
+    "explicitly or rebuilt under the new platform; adopted or rebuilt items are stamped with the container's platform), "
+    "that multi-port entries are split before any item is converted to NX-OS, that renderers are total (platform-indexed "
+    "tables cover every platform the validator can return, no partial lookup, no lookup-type exception can escape), that "
+    "writer keywords belong to the target platform's reader, address re-typing uses size-pinning tests, and that identity "
+    "and sequence survive re-initialisation. Does not decide that converted rules match the same packets or that the "
+    "there-and-back text converges."
+)
+ASSUMPTIONS = ["platforms claimed: ios and nxos"]
+
+
+def children(ctx: Ctx, cls: Class) -> Dict[str, str]:
+    """attribute -> 'scalar' | 'list' for attributes holding Base-derived objects."""
+    base = ctx.cls("Base")
+    attrs: Set[str] = set()
+    for c in cls.mro:
+        for f in c.all_funcs():
+            for n in own_nodes(f.node):
+                if isinstance(n, (ast.Assign, ast.AnnAssign)):
+                    for t in n.targets if isinstance(n, ast.Assign) else [n.target]:
+                        if isinstance(t, ast.Attribute) and src(t.value) == "self":
+                            attrs.add(t.attr)
+    out: Dict[str, str] = {}
+    for a in sorted(attrs):
+        if cls.lookup_setter(a) is not None:
+            continue
+        t = ctx.types.attr_type(cls, a)
+        if any(c.is_subclass_of(base) for c in classes_of(t)):
+            out[a] = "scalar"
+        elif any(m[0] == "list" and any(c.is_subclass_of(base) for c in classes_of(m[1])) for m in members(t)):
+            out[a] = "list"
+    return out
+
+
+def r02_1(ctx: Ctx, rep: Report) -> None:  # noqa: C901
+    rep.rule("R02.1")
+    sites = reinit_sites(ctx)
+    done: Set[Tuple[str, str]] = set()
+    for cn in DATA_CLASSES:
+        cls = ctx.cls(cn)
+        st = cls.lookup_setter("platform")
+        if st is None:
+            continue
+        ch = children(ctx, cls)
+        cfg = ctx.cfg(st)
+        reinit = any(f is st for f, _, _, _ in sites)
+        param = st.params[1]
+        for attr, kind in ch.items():
+            rep.instance()
+            label = f"{cn}.{attr} via {st.qualname}"
+
+            def conv_store(n: Node, recv: str) -> bool:
+                if n.kind == "stmt" and isinstance(n.ast, ast.Assign):
+                    for t in n.ast.targets:
+                        if isinstance(t, ast.Attribute) and t.attr in ("platform", "_platform") and src(t.value) == recv:
+                            return mentions(n.ast.value, "self") or mentions(n.ast.value, param)
+                return False
+
+            ok, why = False, ""
+            if kind == "scalar":
+                if cfg.all_paths_pass(cfg.entry, cfg.exit, lambda n: conv_store(n, f"self.{attr}"), labels_avoid=("exc",)):
+                    ok, why = True, f"self.{attr}.platform is assigned on every normal path"
+            else:
+                loops = [n for n in cfg.live if n.kind == "for" and src(n.ast.iter) in (f"self.{attr}", f"self.{attr.lstrip('_')}")]
+                for lp in loops:
+                    var = src(lp.ast.target)
+                    body_ok = all(any(conv_store(n, var) for n, _ in path) for path in loop_body_paths(cfg, lp) if path[-1][0] is lp)
+                    passes = cfg.all_paths_pass(cfg.entry, cfg.exit, lambda n, lp=lp: n is lp, labels_avoid=("exc",))
+                    if body_ok and passes:
+                        ok, why = True, f"every element of self.{attr} gets .platform on every path"
+            if not ok and reinit:
+                # rebuilt: every construction site of the child passes platform=self._platform and __init__ does not restore it from its own dict
+                ctor_sites = []
+                restored = False
+                for c in cls.mro:
+                    for f in c.all_funcs():
+                        for n in own_nodes(f.node):
+                            if isinstance(n, ast.Assign) and any(isinstance(t, ast.Attribute) and src(t) == f"self.{attr}" for t in n.targets) and isinstance(n.value, ast.Call):
+                                if f.name == "__init__":
+                                    if any(k.arg is None for k in n.value.keywords):
+                                        restored = True
+                                    continue
+                                ctor_sites.append((f, n))
+                good = [1 for f, n in ctor_sites if any(k.arg == "platform" and src(k.value) in ("self._platform", "self.platform") for k in n.value.keywords)]
+                if ctor_sites and len(good) == len(ctor_sites) and not restored:
+                    ok, why = True, f"re-initialised: all {len(ctor_sites)} construction sites pass platform=self._platform"
+            if ok:
+                rep.ok(label, why, where=where(st))
+            else:
+                rep.violation(
+                    st.qualname,
+                    f"{cn}: child {attr} is not converted",
+                    f"the platform setter neither assigns .platform on {'each element of ' if kind == 'list' else ''}self.{attr} on every path nor rebuilds it under the new platform: part of the tree keeps the old platform's spelling",
+                    where(st),
+                    inp=f"{cn} with an address group / nested object; platform = 'nxos'; rendered text mixes both syntaxes",
+                )
+    rep.floor(8, "child objects of platform-convertible classes")
+    # adoption / rebuilding stamps the platform
+    rep.rule("R02.1b")
+    for q in ("AceGroup.items.setter", "Acl.items.setter", "AddrGroup.items.setter", "AddressBase._init_items"):
+        f = ctx.func(q)
+        cfg = ctx.cfg(f)
+        loops = [n for n in cfg.live if n.kind == "for"]
+        if not loops:
+            continue
+        lp = loops[0]
+        var = src(lp.ast.target)
+        for path in loop_body_paths(cfg, lp):
+            if path[-1][0] is not lp:
+                continue
+            atoms = [(src(n.ast), lab == "T") for n, lab in path if n.kind == "cond" and lab in ("T", "F")]
+            kind = None
+            for a, tr in atoms:
+                if tr and a.startswith("isinstance(") and var in a:
+                    if "dict" in a:
+                        kind = "dict"
+                    elif ", str)" in a:
+                        kind = "str"
+                    else:
+                        kind = "object"
+            if kind is None:
+                continue
+            if not any(n.kind == "stmt" and n.ast is not None and any(isinstance(x, ast.Call) and isinstance(x.func, ast.Attribute) and x.func.attr == "append" for x in ast.walk(n.ast)) for n, _ in path):
+                continue  # skipped lines (description, invalid)
+            rep.instance()
+            stamped = False
+            for n, lab in path:
+                if n.kind != "stmt" or n.ast is None:
+                    continue
+                if isinstance(n.ast, ast.Assign):
+                    for t in n.ast.targets:
+                        if kind == "object" and isinstance(t, ast.Attribute) and t.attr in ("platform", "_platform") and src(t.value) == var and "platform" in src(n.ast.value):
+                            stamped = True
+                        if kind == "dict" and isinstance(t, ast.Subscript) and src(t.value) == var and isinstance(t.slice, ast.Constant) and t.slice.value == "platform":
+                            stamped = True
+                if kind == "str":
+                    for x in ast.walk(n.ast):
+                        if isinstance(x, ast.Call):
+                            if any(k.arg == "platform" and "platform" in src(k.value) for k in x.keywords):
+                                stamped = True
+                            for e in ctx.cg.all_edges(f):
+                                if e.site is x and isinstance(e.target, Func) and e.kind == "call" and not e.weak:
+                                    g = e.target
+                                    ctor_calls = [y for y in own_nodes(g.node) if isinstance(y, ast.Call) and isinstance(y.func, (ast.Name, ast.Attribute)) and (src(y.func) in ctx.prog.classes or src(y.func) == "self.__class__")]
+                                    if ctor_calls and all(any(k.arg == "platform" and src(k.value) in ("self._platform", "self.platform") for k in y.keywords) for y in ctor_calls):
+                                        stamped = True
+            if stamped:
+                rep.ok(f"{q}: {kind} item", "receives the container's platform", where=where(f, lp.ast))
+            else:
+                rep.violation(q, f"{kind} item adopted without the container's platform", "an item added to the container keeps (or is parsed under) another platform: the ACL renders mixed syntax", where(f, lp.ast), inp="acl_nxos.items = [ios_ace]")
+    rep.floor(9, "item adoption branches")
+
+
+def fact_platform_range(ctx: Ctx, rep: Report) -> Set[str]:
+    """_platform only ever holds a value returned by init_platform, whose return literals ⊆ PLATFORMS."""
+    platforms = set(ctx.folder.const("helpers", "PLATFORMS"))
+    ip = ctx.func("helpers.init_platform")
+    rets: Set[str] = set()
+    for n in own_nodes(ip.node):
+        if isinstance(n, ast.Return) and n.value is not None:
+            v = ctx.folder.fold(n.value, ip.module)
+            if known(v) and isinstance(v, str):
+                rets.add(v)
+            else:
+                rets.add("<unfoldable>")
+    rep.instance()
+    if rets <= platforms:
+        rep.ok("fact platform_range: helpers.init_platform", f"returns only {sorted(rets)} ⊆ PLATFORMS", where=where(ip))
+    else:
+        rep.violation("helpers.init_platform", f"returns {sorted(rets)}", f"a platform outside PLATFORMS={sorted(platforms)} can be stored: platform-indexed tables have no row for it", where(ip))
+    bad = []
+    for f in ctx.prog.funcs:
+        for n in own_nodes(f.node):
+            if isinstance(n, (ast.Assign, ast.AnnAssign)) and n.value is not None:
+                for t in n.targets if isinstance(n, ast.Assign) else [n.target]:
+                    if isinstance(t, ast.Attribute) and t.attr == "_platform":
+                        v = n.value
+                        env = {}
+                        for m in own_nodes(f.node):
+                            if isinstance(m, ast.Assign) and isinstance(m.targets[0], ast.Name):
+                                env[m.targets[0].id] = m.value
+                        v = resolve_local(v, env)
+                        okv = (isinstance(v, ast.Call) and src(v.func).endswith("init_platform")) or (isinstance(v, ast.Attribute) and v.attr in ("_platform", "platform"))
+                        if not okv:
+                            bad.append((f, n))
+    rep.instance()
+    if bad:
+        rep.violation(bad[0][0].qualname, snippet(bad[0][1]), "_platform is stored without passing through init_platform", where(bad[0][0], bad[0][1]))
+    else:
+        rep.ok("fact platform_range: writers of _platform", "every store is init_platform(...) or another object's platform", nontrivial=False)
+    return rets
+
+
+def r02_3(ctx: Ctx, rep: Report) -> None:
+    rep.rule("R02.3")
+    rets = fact_platform_range(ctx, rep)
+    # f-strings render items through __str__ -> line, which the call graph does not see: start from every line getter
+    roots = [c.getters["line"] for c in ctx.prog.classes.values() if "line" in c.getters]
+    init_like = lambda f: f.name.startswith(("init_", "_init")) or f.name == "__init__"  # noqa: E731
+    getters = [f for f in ctx.cg.reach(roots, include_weak=False, stop=init_like) if not init_like(f) and f.kind != "setter"]
+    rep.instance(len(getters))
+    rep.floor(8, "renderers reachable from Acl.line")
+    for f in sorted(getters, key=lambda x: x.qualname):
+        for n in own_nodes(f.node):
+            if isinstance(n, ast.Subscript) and isinstance(n.ctx, ast.Load) and not isinstance(n.slice, ast.Slice):
+                if isinstance(getattr(n, "_parent", None), ast.AnnAssign) and getattr(n, "_parent").annotation is n:
+                    continue
+                rep.instance()
+                base = n.value
+                tab = ctx.folder.fold(base, f.module) if isinstance(base, ast.Name) else None
+                key = src(n.slice)
+                if isinstance(tab, dict) and key in ("self._platform", "self.platform"):
+                    if set(tab) >= rets - {"<unfoldable>"} and "<unfoldable>" not in rets:
+                        rep.ok(f"{f.qualname}: {snippet(n)}", f"table keys {sorted(tab)} cover every platform init_platform can return", where=where(f, n))
+                    else:
+                        rep.violation(f.qualname, snippet(n), f"the platform-indexed table has rows {sorted(tab)} but the platform can be any of {sorted(rets)}: KeyError when rendering", where(f, n), inp="an object on the missing platform rendered")
+                else:
+                    rep.violation(f.qualname, snippet(n), "partial lookup in a renderer: an unknown key or index raises instead of falling back to the number", where(f, n), inp="a port or protocol number without a name")
+        esc = ctx.excs.escapes(f)
+        bad = sorted(k for k in esc if k in ("KeyError", "IndexError", "AttributeError", "LookupError"))
+        rep.instance()
+        if bad:
+            rep.violation(f.qualname, f"may raise {bad}", f"a renderer can raise {bad} ({esc[bad[0]][0]}:{esc[bad[0]][1]})", where(f))
+        else:
+            rep.ok(f"{f.qualname}: explicit raises", "no lookup-type exception", nontrivial=False, where=where(f))
+
+
+def run(ctx: Ctx, rep: Report, tier: str) -> None:
+    r02_1(ctx, rep)
+    from .c19 import split_before_convert
+
+    split_before_convert(ctx, rep, rid="R02.2")
+    r02_3(ctx, rep)
+    # R02.4 writer keywords belong to the target platform's reader; R02.6 re-typing tests
+    from .c01 import classification_guards
+    from .c06 import r06_1
+    from .c16 import r16_1, r16_2, settings_propagation
+
+    sub = Report("C02")
+    r06_1(ctx, sub)
+    rep.absorb(sub, "R02.4")
+    classification_guards(ctx, rep, rid="R02.6")
+    # R02.5 identity and sequence survive
+    sub = Report("C02")
+    r16_1(ctx, sub)
+    r16_2(ctx, sub)
+    settings_propagation(ctx, sub)
+    rep.absorb(sub, "R02.5")
